@@ -228,5 +228,7 @@ example : getItem .lsb0 [true, false, false] 2 = .ok true ∧ getItem .lsb0 [tru
 example : setOp .lsb0 [false, false, false] true (.many [0, -1]) = .ok [true, false, true] := by decide
 example : setOp .lsb0 [false, false, false] true (.range 0 2 1) = .ok [false, true, true] := by decide
 example : setOp .lsb0 [false, false, false] true (.range (-1) (-4) (-2)) = .ok [true, false, true] := by decide
+example : intOperand 6 ⟨some 0, some 4, none⟩ 5 = .ok [false, true, false, true] ∧
+    setSliceInt .lsb0 [true, true, false, true, false, false] ⟨some 0, some 4, none⟩ 5 = .ok [true, true, false, true, false, true] := by decide
 
 end BM.C12
